@@ -1358,6 +1358,9 @@ class DiskRefsContainer(RefsContainer):
         self._check_refname(name)
         self._check_refname(other)
         filename = self.refpath(name)
+        # As for any other ref: refuse a name that collides with a packed
+        # ref and clear empty directories left at the path.
+        self._prepare_loose_ref_path(name, filename)
         # The directory may be gone: deleting the last ref in it removes it.
         f = _lock_loose_ref_file(filename)
         try:
